@@ -59,7 +59,7 @@ template <class F> static Val guarded(F f)
   try { f(r); }
   catch (const matvec& e) { r = Val(); r.exc = fmt("matvec:%d", e.error()); }
   catch (const GNU_gama::local::ParserException&) { r = Val(); r.exc = "parser"; }
-  catch (const GNU_gama::local::Exception&) { r = Val(); r.exc = "local"; }
+  catch (const GNU_gama::local::Exception& e) { r = Val(); r.exc = "local"; if (getenv("VERIF_DEBUG_EXC")) fprintf(stderr, "local exception: %s\n", e.what()); }
   catch (const GNU_gama::Exception::adjustment&) { r = Val(); r.exc = "adjustment"; }
   catch (const GNU_gama::Exception::base&) { r = Val(); r.exc = "gama"; }
   return r;
@@ -119,10 +119,20 @@ static Built build(const gnet::Doc& d, const std::string& alg0, const std::vecto
     gnet::parse_gkf(*b.net, d.bytes);
     b.net->set_gons();
     gnet::Prep p = gnet::prepare_like_main(b.net.get(), alg0, [&](LocalNetwork* n) {
-      for (auto& c : changes) { if (c.compare(0, 8, "passive:") == 0) set_passive(n, atoll(c.c_str() + 8)); else if (is_par(c)) set_par(n, c); }
+      // parameters, and the FIRST observation switched off, before the first adjustment.  Later ones follow in sequence
+      // with an adjustment after each, as in the used object: which points an adjustment removes (singular,
+      // indeterminable) is decided round by round and never taken back, so "three observations off, then adjust" and
+      // "one off, adjust, the next off, adjust, ..." are different inputs.
+      bool first = true;
+      for (auto& c : changes) { if (c.compare(0, 8, "passive:") == 0) { if (first) set_passive(n, atoll(c.c_str() + 8)); first = false; } else if (is_par(c)) set_par(n, c); }
     });
     b.adjustable = p.adjustable; b.why = p.why;
-    if (b.adjustable) for (auto& c : changes) if (c.compare(0, 8, "passive:") != 0 && !is_par(c)) apply_change(b.net.get(), c);
+    bool first = true;
+    if (b.adjustable) for (auto& c : changes) {
+      if (is_par(c)) continue;
+      if (c.compare(0, 8, "passive:") == 0) { if (first) { first = false; continue; } }
+      apply_change(b.net.get(), c);
+    }
   });
   if (!r.exc.empty()) { b.adjustable = false; b.why = "exception " + r.exc; }
   return b;
